@@ -15,16 +15,17 @@ def cast_py(kind, x):
 
 def run(check):
     tier = check.tier
-    pairs = [('double', 'float'), ('float', 'double')]
+    groups = [('double', ('float', 'long double')), ('float', ('double', 'long double')), ('long double', ('float', 'double'))]
     check.checker_cmd = 'clang++ -ast-dump=json | phqv lower | goto-cc | goto-instrument --dfcc --enforce-contract <converting ctor / operator=> | cbmc --cvc5'
     check.assume('IEEE mode: float<->double conversions as modelled by CBMC (round-to-nearest-even); exact for both directions')
-    check.notes.append('the four ordered pairs involving long double are not run bit-precisely: CBMC models long double as binary128, not x87 80-bit; the member template is the same text for every OtherNumericType')
+    check.notes.append('the four ordered pairs involving long double are run with CBMC\'s long double (binary128) as a stand-in for x87 80-bit: they establish that each slot is a plain cast of the same source slot (no detour through another type, no slot mix-up); the x87 rounding of long double -> float/double itself is assumed (IEEE round-to-nearest in both formats)')
     check.notes.append('Direction / PlanarDirection converting constructors re-normalise (C10 representation invariant); their converting assignment casts per slot and is checked here')
     jobs = []
     nclasses = 0
-    for T, O in pairs:
-        Q = Quant(check, types=(T,), other_types=(O,), conv=True, hash_=False)
-        low = Q.low
+    for T, others in groups:
+      Q = Quant(check, types=(T,), other_types=others, conv=True, hash_=False)
+      low = Q.low
+      for O in others:
         tag = '%s_from_%s' % (T.replace(' ', '_'), O.replace(' ', '_'))
         classes = list(TENSORS) + [c for c in Q.names if c not in TENSORS]
         for cls in classes:
@@ -70,7 +71,7 @@ def run(check):
                             bad.append('component %d: source %s, cast gives %s, stored %s' % (i, float(x), cast_py(T, x), float(y)))
                     return bad
                 j = IeeeJob(check, 'C16.cast.%s.%s.%s' % (cls, 'ctor' if what == 'ctor' else 'assign', tag), low, f, ensures=ens,
-                            assigns='__CPROVER_assigns(*self)', backend='cvc5', timeout=120, predicate=pred)
+                            assigns='__CPROVER_assigns(*self)', backend=(['sat'] if 'long double' in (T, O) else ['cvc5', 'sat']), timeout=120, predicate=pred)
                 j.gen = gen_vals
                 jobs.append(j)
                 check.under_contract(f)
